@@ -1,6 +1,10 @@
 package props
 
 import (
+	"encoding/json"
+	"os"
+	"sync"
+
 	"verif.local/harness/world"
 	"verif.local/simrt"
 )
@@ -22,5 +26,44 @@ func runThreads(rt *world.Runtime, sim *simrt.Sim) {
 			}
 		})
 	}
-	sim.RunThreads(bodies)
+	sim.RunThreads(bodies, sim.SwarmThreadCfg())
+}
+
+type siteInfo struct {
+	ID   int32  `json:"id"`
+	Pkg  string `json:"pkg"`
+	File string `json:"file"`
+	Func string `json:"func"`
+	Kind string `json:"kind"`
+	Line int    `json:"line"`
+	Expr string `json:"expr"`
+}
+
+var (
+	sitesOnce sync.Once
+	sitesByID map[int32]siteInfo
+)
+
+// siteOf resolves a woven site id through the table the weaver wrote
+// (VERIF_SITES); unknown ids render as "site<N>".
+func siteOf(id int32) siteInfo {
+	sitesOnce.Do(func() {
+		sitesByID = map[int32]siteInfo{}
+		b, err := os.ReadFile(os.Getenv("VERIF_SITES"))
+		if err != nil {
+			return
+		}
+		var doc struct {
+			Sites []siteInfo `json:"sites"`
+		}
+		if json.Unmarshal(b, &doc) == nil {
+			for _, s := range doc.Sites {
+				sitesByID[s.ID] = s
+			}
+		}
+	})
+	if s, ok := sitesByID[id]; ok {
+		return s
+	}
+	return siteInfo{ID: id, Func: "site?", Expr: "?"}
 }
